@@ -25,8 +25,8 @@ import (
 
 func init() {
 	register(&Check{ID: "C16", Level: "fault_enumeration",
-		Rule: "exchanges through upstream.NewUpstream(\"udp://127.0.0.1:p\" | \"127.0.0.1:p\") against a fake server on one port; every exchange has a unique random question (name, type, class) and one script cell " +
-			"{udp: tc|ok|silent} x {tcp: ok|refuse|silent|garbage|close} (all 15 cells, equally often), 12-32 concurrent callers, context deadlines 400-1000 ms against silent legs; plus a sequential series of TC=0 exchanges on a fresh upstream " +
+		Rule: "exchanges through upstream.NewUpstream(\"udp://127.0.0.1:p\" | \"127.0.0.1:p\" | dial_addr with an unresolvable / dead URL host) against a fake server on one port; every exchange has a unique random question (name, type, class) and one script cell " +
+			"{udp: tc|ok|silent} x {tcp: ok|refuse|silent|garbage|close|slow (reply 700 ms after a 250-500 ms deadline)} (all 18 cells, equally often), 12-32 concurrent callers, context deadlines 400-1000 ms against silent legs; plus a sequential series of TC=0 exchanges on a fresh upstream " +
 			"after which the server must have accepted no TCP connection at all. One evaluation = one exchange. Distinct non-trivial cases = distinct tuples (address form, udp script, tcp script, qtype, qclass, outcome class, number of TCP arrivals of the question)",
 		Run: runC16})
 }
